@@ -82,7 +82,7 @@ Proof. vm_compute. reflexivity. Qed.
 Definition box_keys := [B "MediaBox"; B "CropBox"; B "BleedBox"; B "TrimBox"; B "ArtBox"].
 Lemma rectangles :
   forallb (fun p => forallb (fun k => match walk T_ (p ++ [SKey k]) S_ with
-                                      | Some c => chk_eqf c (chk_of_kind VRect) | None => false end) box_keys)
+                                      | Some c => chk_eqb c (chk_of_kind VRect) | None => false end) box_keys)
           [p_page; p_template] = true.
 Proof. vm_compute. reflexivity. Qed.
 Lemma rect_is_four_numbers :
@@ -130,7 +130,7 @@ Proof. vm_compute. reflexivity. Qed.
 (* ---- every optional entry has the declared kind ---- *)
 Definition table_matches (p : list step) (t : list (bytes * vkind)) : bool :=
   forallb (fun e => match walk T_ (p ++ [SKey (fst e)]) S_ with
-                    | Some c => chk_eqf c (chk_of_kind (snd e)) | None => false end) t.
+                    | Some c => chk_eqb c (chk_of_kind (snd e)) | None => false end) t.
 Lemma optional_entries :
   table_matches [] catalog_table = true /\ table_matches p_page page_table = true
   /\ table_matches p_template template_table = true.
